@@ -249,6 +249,8 @@ where
         let len = archive.len();
         let mut files = HashMap::with_capacity(len);
         let mut dirs = HashMap::new();
+        // The root directory always exists, even in an empty archive
+        dirs.insert(SharedString::from(""), Vec::new());
         let mut id_builder = IdBuilder::default();
 
         for index in 0..len {
